@@ -261,6 +261,34 @@ func scFaults(seq string, gap time.Duration) func(x *vs.Exec) {
 	}
 }
 
+// outreload: the configuration is reloaded while the server is unreachable (after the connection was lost and at least one
+// re-login failed, or right after the loss); once the server is back the client registers the proxies configured *now*.
+func scOutageReload(at int) func(x *vs.Exec) {
+	return func(x *vs.Exec) {
+		w := newClient(x, 1, 3, false)
+		if !awaitHealthy(w, 60*time.Second, "first login") {
+			return
+		}
+		vs.SetInterest(true)
+		w.Srv.Stop()
+		time.Sleep(time.Duration(at) * time.Second)
+		if err := w.Svc.UpdateAllConfigurer([]v1.ProxyConfigurer{cw.TCPProxy("web", 8080, 9000), cw.TCPProxy("db", 5432, 9002)}, nil); err != nil {
+			vs.Fail("reload during the outage refused: %v", err)
+			return
+		}
+		time.Sleep(time.Duration(30-at) * time.Second)
+		w.Srv.Start()
+		vs.SetInterest(false)
+		ok := func() bool { return w.Srv.LiveCount() == 1 && fmt.Sprint(w.Srv.Registered()) == "[db web]" }
+		vs.BlockFor("await-reloaded-set", 60*time.Second, ok)
+		if !ok() {
+			vs.Fail("the configuration was reloaded %d s into a 30 s outage (proxies web, ssh -> web, db); 60 s after the server came back it has live sessions=%d registered=%v, expected the proxies configured now [db web]\n%s",
+				at, w.Srv.LiveCount(), w.Srv.Registered(), tail(w.Srv.Log(), 25))
+		}
+		w.Svc.Close()
+	}
+}
+
 // many: a client with n proxies loses its control connection; it must come back with all of them. (The client's
 // teardown announces the end of every proxy on the dying session's bounded send queue: the number of proxies is an input.)
 func scMany(n int, fault string) func(x *vs.Exec) {
@@ -434,6 +462,11 @@ func scenarios() {
 			fmt.Sscanf(f[1], "%d", &n)
 			s.Body = scMany(n, f[2])
 			s.End = endClient
+		case "outreload":
+			var at int
+			fmt.Sscanf(f[1], "%d", &at)
+			s.Body = scOutageReload(at)
+			s.End = endClient
 		case "faults":
 			gap := time.Second
 			if len(f) > 2 {
@@ -458,7 +491,7 @@ func main() {
 	if c == nil {
 		return
 	}
-	c.Rule("E1 on the virtual clock: (server) real frps vs scripted peer for heartbeat timeouts {3,10,90}s x ping periods x every second at which the peer falls silent or starts sending invalid heartbeats; (client) real frpc vs model server: silent server, and all fault sequences of length <= L over {unreachable for 0/1/30/300 s, login rejected, cut right after login, cut, heartbeats unanswered, restart} with the server down at start or not, and fault sequences of length <= 2 against a client with the default loginFailExit=true (whose first login succeeded); clients with 99 / 100 / 101 / 130 proxies (around the capacity of the session's send queue) that lose the control connection; oracle: drop within (timeout, timeout+2s], never for a live peer, resources released, self-healing within 60 s, a server that accepts logins and drops the session at once for a minute, never 3 failed connection attempts within 190 ms, <= 10 per second and <= 40 per minute; (tunnel) real frps + real frpc + backend: control connection severed on the client's side only (also with the first re-login refused by a plugin: never two sessions of the one client), on the server's side only, or cut: the tunnel carries traffic again within 100 s, all schedules with at most B deviations; non-trivial = distinct observation trace")
+	c.Rule("E1 on the virtual clock: (server) real frps vs scripted peer for heartbeat timeouts {3,10,90}s x ping periods x every second at which the peer falls silent or starts sending invalid heartbeats; (client) real frpc vs model server: silent server, and all fault sequences of length <= L over {unreachable for 0/1/30/300 s, login rejected, cut right after login, cut, heartbeats unanswered, restart} with the server down at start or not, and fault sequences of length <= 2 against a client with the default loginFailExit=true (whose first login succeeded); clients with 99 / 100 / 101 / 130 proxies (around the capacity of the session's send queue) that lose the control connection; oracle: drop within (timeout, timeout+2s], never for a live peer, resources released, self-healing within 60 s, a server that accepts logins and drops the session at once for a minute, never 3 failed connection attempts within 190 ms, <= 10 per second and <= 40 per minute; (tunnel) real frps + real frpc + backend: control connection severed on the client's side only (also with the first re-login refused by a plugin: never two sessions of the one client), on the server's side only, or cut: the tunnel carries traffic again within 100 s, all schedules with at most B deviations; non-trivial = distinct observation trace; a reload of the configuration 0 / 4 / 20 s into a 30 s outage: the proxies configured at the time the server is back are the ones registered")
 	pool := vs.GetPool(c.Workers)
 	var names []string
 	for _, T := range []int{3, 10, 90} {
@@ -534,6 +567,10 @@ func main() {
 	// schedule deviations on representative cases
 	for _, n := range []string{"srv/T3-e1-s2-i0", "srv/T3-e1-s4-i1", "silent/1-3-1", "faults/cut,down1", "faults/restart,reject"} {
 		c.ExploreBoth(n, 1, 0.25)
+	}
+	// a reload while the server is unreachable: right after the loss, after the first failed re-logins, late
+	for _, n := range []string{"outreload/0", "outreload/4", "outreload/20"} {
+		c.ExploreBoth(n, drv.Pick(c, 0, 1), 0.1)
 	}
 	// many proxies: both default orders (whether the dying session's sender or its teardown runs first is the point)
 	for _, n := range many {
